@@ -1,7 +1,7 @@
 (* C18 — The shard map always partitions the hash space and routes every key to one shard.
    This file contains only the property theorems (each closed by [exact]) and Print Assumptions. *)
-From Coq Require Import List NArith ZArith.
-From Oxia.Shard Require Import Model Proofs.
+From Coq Require Import List NArith ZArith Permutation.
+From Oxia.Shard Require Import Model Proofs Status StatusProofs ClientProofs.
 Import ListNotations.
 Open Scope N_scope.
 
@@ -25,3 +25,110 @@ Theorem c18_generate_refuted_65537 :
   exists l, generate_shards 0 65537 = Some l /\ chainedb 0 l = false.
 Proof. exact generate_65537_not_partition. Qed.
 Print Assumptions c18_generate_refuted_65537.
+
+(* The cluster status over EVERY history of config changes (add/remove namespaces and servers, with any
+   ensemble supplier, failing or not), shard-deletion completions and controller metadata updates, for shard
+   counts 1..65536 and fewer than 2^63 requested shards: shard ids are unique over the whole status and below
+   ShardIdGenerator; every stored namespace has shards, and what is published for it is nothing (the namespace
+   is being deleted) or a partition of [0, 2^32).  (Model of the code with fix O-18(a).) *)
+Theorem c18_status_invariant :
+  forall (S : Type) (supplier : S -> nsconfig -> cstatus -> option (list N) * S) (sup0 : S) (ops : list op),
+  Forall op_in_domain ops -> (requested ops < I64)%Z ->
+  let st := fst (run S supplier (init_status, sup0) ops) in
+  NoDup (all_ids (st_ns st)) /\
+  (forall id, In id (all_ids (st_ns st)) -> (0 <= id < st_idgen st)%Z) /\
+  (forall name ns, In (name, ns) (st_ns st) ->
+     ns_shards ns <> [] /\ (assignments ns = [] \/ partition (assignments ns))).
+Proof. exact status_invariant. Qed.
+Print Assumptions c18_status_invariant.
+
+(* The generator never decreases ... *)
+Theorem c18_generator_monotone :
+  forall (S : Type) (supplier : S -> nsconfig -> cstatus -> option (list N) * S) (sup0 : S) (ops1 ops2 : list op),
+  Forall op_in_domain (ops1 ++ ops2) -> (requested (ops1 ++ ops2) < I64)%Z ->
+  (st_idgen (fst (run S supplier (init_status, sup0) ops1)) <=
+   st_idgen (fst (run S supplier (init_status, sup0) (ops1 ++ ops2))))%Z.
+Proof. exact generator_monotone. Qed.
+Print Assumptions c18_generator_monotone.
+
+(* ... and shard ids are never reused: an id that was in the status and is gone never comes back. *)
+Theorem c18_ids_never_reused :
+  forall (S : Type) (supplier : S -> nsconfig -> cstatus -> option (list N) * S) (sup0 : S)
+         (ops1 ops2 ops3 : list op) (id : Z),
+  Forall op_in_domain (ops1 ++ ops2 ++ ops3) -> (requested (ops1 ++ ops2 ++ ops3) < I64)%Z ->
+  In id (all_ids (st_ns (fst (run S supplier (init_status, sup0) ops1)))) ->
+  ~ In id (all_ids (st_ns (fst (run S supplier (init_status, sup0) (ops1 ++ ops2))))) ->
+  ~ In id (all_ids (st_ns (fst (run S supplier (init_status, sup0) (ops1 ++ ops2 ++ ops3))))).
+Proof. exact ids_never_reused. Qed.
+Print Assumptions c18_ids_never_reused.
+
+(* While a shard id lives it keeps its namespace and its hash range. *)
+Theorem c18_shard_keeps_namespace_and_range :
+  forall (S : Type) (supplier : S -> nsconfig -> cstatus -> option (list N) * S) (sup0 : S)
+         (ops1 ops2 : list op) (name : N) (s : shard),
+  Forall op_in_domain (ops1 ++ ops2) -> (requested (ops1 ++ ops2) < I64)%Z ->
+  let s1 := fst (run S supplier (init_status, sup0) ops1) in
+  let s2 := fst (run S supplier (init_status, sup0) (ops1 ++ ops2)) in
+  shard_in (st_ns s2) name s -> (sid s < st_idgen s1)%Z -> shard_in (st_ns s1) name s.
+Proof. exact shard_keeps_namespace_and_range. Qed.
+Print Assumptions c18_shard_keeps_namespace_and_range.
+
+(* O-18(b), known finding: a namespace added again while the shards of its previous incarnation are still being
+   deleted counts as existing, gets no shards and is published with zero shards ... *)
+Theorem c18_readded_namespace_refuted :
+  exists ops cfg nc ns,
+    Forall op_in_domain (ops ++ [OpApply cfg]) /\ (requested (ops ++ [OpApply cfg]) < I64)%Z /\
+    In nc (cfg_ns cfg) /\
+    ns_lookup (nc_name nc) (st_ns (fst (run unit const_supplier (init_status, tt) (ops ++ [OpApply cfg])))) = Some ns /\
+    assignments ns = [] /\ ~ partition (assignments ns).
+Proof. exact readded_namespace_refuted. Qed.
+Print Assumptions c18_readded_namespace_refuted.
+
+(* ... what holds instead: after a config change every configured namespace the status holds is published as a
+   partition, provided none of its shards was still being deleted when the change came in. *)
+Theorem c18_configured_namespaces_partitioned_partial :
+  forall (S : Type) (supplier : S -> nsconfig -> cstatus -> option (list N) * S) (sup0 : S)
+         (ops : list op) (cfg : cconfig) st' ta td sup',
+  Forall op_in_domain (ops ++ [OpApply cfg]) -> (requested (ops ++ [OpApply cfg]) < I64)%Z ->
+  let s := run S supplier (init_status, sup0) ops in
+  apply_cluster_changes S supplier cfg (fst s) (snd s) = (Some (st', ta, td), sup') ->
+  forall nc ns', In nc (cfg_ns cfg) -> ns_lookup (nc_name nc) (st_ns st') = Some ns' ->
+    (forall ns, ns_lookup (nc_name nc) (st_ns (fst s)) = Some ns ->
+                forall m, In m (ns_shards ns) -> is_deleting (m_st m) = false) ->
+    partition (assignments ns').
+Proof. exact configured_namespaces_partitioned_partial. Qed.
+Print Assumptions c18_configured_namespaces_partitioned_partial.
+
+(* Client shard map: if the map has unique ids and no overlapping entries (the empty map, any partition) and the
+   update is a partition with unique ids in which an id the client already knows keeps its range, then after
+   [update] the map holds exactly the update's shards -- stale shards are removed by the overlap rule. *)
+Theorem c18_client_update_preserves_partition : forall m upd,
+  disjoint_map m -> partition upd -> NoDup (map sid upd) ->
+  (forall x u, In x m -> In u upd -> sid x = sid u -> x = u) ->
+  Permutation (client_update m upd) upd /\ disjoint_map (client_update m upd).
+Proof. exact client_update_partition. Qed.
+Print Assumptions c18_client_update_preserves_partition.
+
+Theorem c18_partition_is_disjoint_map : forall l,
+  partition l -> NoDup (map sid l) -> disjoint_map l.
+Proof. exact partition_disjoint_map. Qed.
+Print Assumptions c18_partition_is_disjoint_map.
+
+(* Client and server agree: along every history, a client that was sent the assignments of a namespace at one
+   moment and at a later one holds exactly the later publication and routes every hash code to the one shard
+   that publication -- which the servers forward unchanged -- names. *)
+Theorem c18_client_server_agree :
+  forall (S : Type) (supplier : S -> nsconfig -> cstatus -> option (list N) * S) (sup0 : S)
+         (ops1 ops2 : list op) (name : N) (ns1 ns2 : nsstatus) (m1 m2 : list shard) (h : N),
+  Forall op_in_domain (ops1 ++ ops2) -> (requested (ops1 ++ ops2) < I64)%Z ->
+  let s1 := fst (run S supplier (init_status, sup0) ops1) in
+  let s2 := fst (run S supplier (init_status, sup0) (ops1 ++ ops2)) in
+  ns_lookup name (st_ns s1) = Some ns1 -> assignments ns1 <> [] ->
+  ns_lookup name (st_ns s2) = Some ns2 -> assignments ns2 <> [] ->
+  client_receive name (compute_assignments s1) [] = Some m1 ->
+  client_receive name (compute_assignments s2) m1 = Some m2 ->
+  h < U32 ->
+  Permutation m2 (assignments ns2) /\
+  exists s, route (assignments ns2) h = [s] /\ route m2 h = [s].
+Proof. exact client_server_agree. Qed.
+Print Assumptions c18_client_server_agree.
